@@ -289,6 +289,23 @@ CHECKS = {
               'observing find_ptm_atoms / identify_ptms; the branch for atoms already labelled by RepairGraph is not modelled; the '
               'flood-fill grouping is validated, not proved.'),
         technique='Coq proof (soundness and completeness of a backtracking exact cover against an inductive specification) + C06 verified oracle + in-Coq correspondence'),
+    'C11': dict(
+        category='other',
+        text=('PARTIAL BY NATURE: a theorem about the whole pipeline would need a model of the whole pipeline. What is proved '
+              'in Coq are the stage-level facts the claim rests on: a canonical order (sorting by a total order) does not depend '
+              'on the order of presentation (uniqueness of sorted permutations); stages that commute with a change of '
+              'presentation compose to a pipeline that commutes with it; an exact rigid motion preserves every squared '
+              'distance (so C10 bond guessing, C15 elastic network, C18 contacts - which see coordinates only through '
+              'distances - are unaffected) and weighted means move with it (C09 bead positions); together with the '
+              'per-property theorems C04 (names and atom order do not matter), C01 (placement order by lowest key), C09, C10, '
+              'C15. The composition on the real pipeline is EXPLORED, not proved: paired runs of the real martinize2 command '
+              'line in separate processes over presentations (within-residue atom permutations, hydrogen renaming, exact '
+              'rigid motions, hash seeds, combinations) and option sets; every ITP section compared token by token, '
+              'coordinates compared in Coq against the moved reference with exact rationals.'),
+        design_ref='DESIGN.md section 5, C11',
+        note=('Trusted: Coq kernel + vm_compute; the PDB rewriting and ITP tokenising of the harness; DSSP unavailable (secondary '
+              'structure via -ss or none); level "other": stage theorems plus metamorphic exploration of the composition.'),
+        technique='Coq proof of stage-level invariance facts + metamorphic paired runs of the real command line (exploration, declared)'),
 }
 NOT_APPLICABLE = {}
 PENDING_REASON = 'not yet claimed: model and proofs for this property are still being built (see DESIGN.md staging); no check is registered so nothing is asserted'
